@@ -1,0 +1,65 @@
+//! Verification hooks, only compiled with `--cfg a10_verif`.
+//!
+//! An installable table of functions that stand in for the system calls the
+//! io_uring implementation makes, plus a "yield point" callback invoked where
+//! another thread or the kernel could interfere (before taking a lock, before
+//! loading a kernel-shared word). With nothing installed every hook falls
+//! through to the real system call and the yield points do nothing.
+
+#![allow(missing_docs, missing_debug_implementations, clippy::all, clippy::pedantic)]
+
+use std::io;
+use std::ptr::NonNull;
+
+use super::libc::{c_int, c_uint, c_void, io_uring_params, off_t, size_t};
+
+/// Yield point kinds.
+pub(crate) const YIELD_LOCK: u32 = 0;
+pub(crate) const YIELD_TRY_LOCK: u32 = 1;
+pub(crate) const YIELD_LOAD_KERNEL_SHARED: u32 = 2;
+
+#[derive(Copy, Clone)]
+pub(crate) struct Table {
+    pub(crate) io_uring_setup: Option<unsafe fn(c_uint, *mut io_uring_params) -> c_int>,
+    pub(crate) io_uring_register: Option<unsafe fn(c_int, c_uint, *const c_void, c_uint) -> c_int>,
+    pub(crate) io_uring_enter2:
+        Option<unsafe fn(c_int, c_uint, c_uint, c_uint, *const c_void, usize) -> c_int>,
+    pub(crate) mmap:
+        Option<unsafe fn(size_t, c_int, c_int, c_int, off_t) -> io::Result<NonNull<c_void>>>,
+    pub(crate) munmap: Option<unsafe fn(NonNull<c_void>, size_t) -> io::Result<()>>,
+    pub(crate) close: Option<unsafe fn(c_int) -> c_int>,
+    pub(crate) yield_point: Option<fn(u32)>,
+}
+
+impl Table {
+    pub(crate) const EMPTY: Table = Table {
+        io_uring_setup: None,
+        io_uring_register: None,
+        io_uring_enter2: None,
+        mmap: None,
+        munmap: None,
+        close: None,
+        yield_point: None,
+    };
+}
+
+static mut TABLE: Table = Table::EMPTY;
+
+/// Install `table`, replacing the previous one.
+///
+/// # Safety
+///
+/// Not synchronised: only call while no other thread uses the crate.
+pub(crate) unsafe fn install(table: Table) {
+    unsafe { TABLE = table };
+}
+
+pub(crate) fn table() -> Table {
+    unsafe { TABLE }
+}
+
+pub(crate) fn yield_point(kind: u32) {
+    if let Some(hook) = table().yield_point {
+        hook(kind);
+    }
+}
